@@ -159,7 +159,7 @@ func c20Resplit(r *Rng, p c20Pkg) (c20Pkg, bool) {
 		return p, false
 	}
 	f, err := parser.ParseFile(p.Names[0], p.Srcs[0], parser.ParseComments)
-	if err != nil || len(f.Imports) > 0 {
+	if err != nil {
 		return p, false
 	}
 	var pkgDecl ast.Decl
